@@ -325,7 +325,11 @@ class UCMM( device.Object ):
                         except Exception as exc:
                             # Failure
                             log.normal( "UCMM: port/link %s --> %r; closing route due to: %s", portlink, target, exc )
-                            del self.route_conn[target] # will close()
+                            # Close it now: another session may already be waiting for this (shared)
+                            # route, and must not pick up a response that is still in flight on it.
+                            failed	= self.route_conn.pop( target, None )
+                            if failed is not None:
+                                failed.close()
                             raise
                         else:
                             # Successful
